@@ -425,11 +425,18 @@ def _eq(a: ast.AST, b: ast.AST) -> bool:
 def match(t: Template | ast.AST, e: ast.AST, binds: dict[str, ast.AST] | None = None) -> dict[str, ast.AST] | None:
     """Match template against expression; returns the bindings or None.  `binds` may pre-bind holes
     (to AST nodes or to source strings)."""
-    b: dict[str, ast.AST] = {}
+    b: dict[str, ast.AST] = _Binds()
     for k, v in (binds or {}).items():
         b[k] = ast.parse(v, mode="eval").body if isinstance(v, str) else v
     tree = t.tree if isinstance(t, Template) else t
     return b if _match(tree, e, b) else None
+
+
+class _Binds(dict):  # type: ignore[type-arg]
+    """the bindings of a successful match: true in a boolean context even when the template has no holes"""
+
+    def __bool__(self) -> bool:
+        return True
 
 
 WRAPPERS = ("__phi__", "__ctl__", "__inl__")
